@@ -62,6 +62,21 @@ initadd(struct initparser *p, struct init *new)
 	p->last = &new->next;
 }
 
+/* a braced initializer for a subobject overrides everything listed for it before (C11 6.7.9p19) */
+static void
+initclear(struct initparser *p, unsigned long long start, unsigned long long end)
+{
+	struct init **init, *old;
+
+	for (init = &p->init; old = *init;) {
+		if (start <= old->start && old->end <= end)
+			*init = old->next;
+		else
+			init = &old->next;
+	}
+	p->last = &p->init;
+}
+
 static void
 subobj(struct initparser *p, struct type *t, unsigned long long off)
 {
@@ -223,6 +238,8 @@ parseinit(struct scope *s, struct type *t)
 				focus(&p);
 		}
 		if (consume(TLBRACE)) {
+			if (p.cur)
+				initclear(&p, p.sub->offset, p.sub->offset + p.sub->type->size);
 			if (consume(TRBRACE)){
 				if (p.sub->type->incomplete)
 					error(&tok.loc, "array of unknown size has empty initializer");
